@@ -57,7 +57,7 @@ ASSUMPTIONS = [
     "two operands of a swap are distinct and a cascade has no repeated member (what the callers in fuelHandlers.py pass)",
 ]
 
-KINDS = ["swap", "cascade", "dswap", "add", "remove"]
+KINDS = ["swap", "cascade", "dswap", "add", "remove", "ring"]  # "ring" = Core.removeAssembliesInRing (hex cores)
 STATIONARY = {
     "none": ([], ()),
     "grid plate": (["GRID_PLATE"], ("grid plate",)),
@@ -91,6 +91,7 @@ def _op():
             "design": st.integers(0, 2),
             "loc": idx,  # free location for add
             "discharge": st.sampled_from([True, False]),
+            "override": st.sampled_from([False, True]),  # removeAssembliesInRing(overrideCircularRingMode=...) in hex mode
         }
     )
 
@@ -116,6 +117,9 @@ def strategy(tier):
             # the reactor has no spent fuel pool at all (del r.excore["sfp"], as armi's test_removeAssemblyNoSfp does):
             # every discharge then takes the assembly out of the model, tracked or not
             "sfpDeleted": st.sampled_from([False, True, False, False, False]),
+            # the core's ring definition (setting circularRingMode); bulk removal by ring is always asked for HEX rings:
+            # with the override when the core is in circular mode, with or without it otherwise
+            "circular": st.sampled_from([False, True]),
         }
     )
 
@@ -606,7 +610,8 @@ def _execute(case, exclude):
     if prepool:
         spec["sfp"] = True  # contents need the explicit pool grid
         text = _with_pool_contents(rg.render(spec), [spec["designs"][d]["specifier"] for d in prepool])
-    cs, bp, r = rg.build(spec, {"trackAssems": track, "stationaryBlockFlags": list(flags)}, text=text)
+    circular = bool(case.get("circular", False))
+    cs, bp, r = rg.build(spec, {"trackAssems": track, "stationaryBlockFlags": list(flags), "circularRingMode": circular}, text=text)
     start = case.get("start", "built")
     if start == "db-loaded":
         r = _through_database(cs, bp, r)
@@ -666,7 +671,8 @@ def _execute(case, exclude):
         out.nontrivial = exclude is _NO_EXCLUSION and known_shape
         return out
 
-    enabled = [k for k in KINDS if k in case["enabled"]]
+    # bulk removal gets half the weight of the other kinds
+    enabled = [k for k in KINDS if k in case["enabled"] for _ in range(1 if k == "ring" else 2)]
     executed = 0
     dswap_done = False
     touched_charged = False
@@ -689,6 +695,8 @@ def _execute(case, exclude):
 
     for step, op in enumerate(case["program"]):
         kind = _pick(enabled, op["k"])
+        if kind == "ring" and not spec["geom"].startswith("hex"):
+            kind = "remove"  # "a ring in cartesian is basically a square" is not a definition the model can follow
         cands = M.core_sorted()
         touched = set()
         ctx = None
@@ -871,6 +879,31 @@ def _execute(case, exclude):
             M.put_in(aid, ij)
             out.label("op:add", "add:" + source, "add-how:" + how, "pos:" + M.position_class(ij))
 
+        elif kind == "ring":
+            # Core.removeAssembliesInRing: every assembly of the ring is discharged (removeAssembly default), then
+            # processLoading(cs).  Hex ring = hex distance from the centre + 1 (the model's own geometry); with the
+            # core in circular ring mode the caller passes the documented override ("you know you don't want to use the
+            # circular ring mode, and instead want square or hex").
+            rings = sorted({_dist(M.where[c])[0] + 1 for c in cands})
+            rings = [n for n in rings if any(_dist(M.where[c])[0] + 1 != n for c in cands)]  # something stays
+            if not rings:
+                out.label("skip:single-ring")
+                continue
+            ring = _pick(rings, op["a"])
+            members = [c for c in cands if _dist(M.where[c])[0] + 1 == ring]
+            override = True if circular else bool(op.get("override", False))
+            desc = "removeAssembliesInRing(%d, overrideCircularRingMode=%s) [circularRingMode %s; %s]" % (
+                ring, override, circular, ", ".join(M.name(m) for m in members))
+            pos_labels(*members)
+            touched.update(members)
+            core.removeAssembliesInRing(ring, cs, overrideCircularRingMode=override)
+            for m in members:
+                M.take_out(m, to_pool=track and not no_pool)
+            if track and no_pool:
+                ctx = dict(nosfp_ctx)
+            out.label("op:ring", "ring:%s%s" % ("circular-mode+override" if circular else "hex-mode", "+override" if override and not circular else ""),
+                      "ring:n%d" % min(ring, 4))
+
         elif kind == "remove":
             if len(cands) <= 1:
                 out.label("skip:too-few-assemblies")
@@ -911,6 +944,160 @@ def _execute(case, exclude):
 _NO_EXCLUSION = {}
 
 
+# ---------------------------------------------------------------------------------------------
+# part "replay": an outage recorded by armi and repeated through explicitRepeatShuffles
+
+
+def replay_strategy(tier):
+    op = st.fixed_dictionaries(
+        {
+            "kind": st.sampled_from(["swap", "cascade", "cascade", "dswap"]),
+            "a": st.integers(0, 59),
+            "b": st.integers(0, 59),
+            "more": st.lists(st.integers(0, 59), min_size=0, max_size=3),
+            "design": st.integers(0, 2),
+        }
+    )
+    return st.fixed_dictionaries(
+        {
+            "spec": rg.reactor_spec(geoms=("hex", "hex_corners_up"), max_rings=3, max_blocks=2, min_assems=3, allow_pin_grid=False),
+            "stationary": st.sampled_from(["none", "grid plate"]),
+            "program": st.lists(op, min_size=1, max_size=6),
+        }
+    )
+
+
+def _load_model(spec, stat_kinds, r):
+    M = _Model(spec, stat_kinds, True)
+    M.cells = [tuple(c) for c in rg.hex_cells(spec["rings"], spec["symmetry"])]
+    design_at = {(c[0], c[1]): spec["designs"][c[2]] for c in spec["cells"]}
+    for a in r.core:
+        ij = (int(a.spatialLocator.i), int(a.spatialLocator.j))
+        aid = M.register(a, design_at[ij])
+        M.at[ij] = aid
+        M.where[aid] = ij
+    for t in r.blueprints.assemblies.values():
+        M.templates.add(id(t))
+        M.templates.update(id(b) for b in t)
+    return M
+
+
+def replay_execute(case):
+    """Outage 1: a generated program of swaps / cascades / discharge swaps through FuelHandler.outage(), recorded by armi
+    (Core.setMoveList) and written with FuelHandlerInterface.makeShuffleReport.  Outage 2: an identical fresh reactor repeats
+    it through the explicitRepeatShuffles setting (outage -> repeatShufflePattern -> readMoves / processMoveList /
+    doRepeatShuffle).  The repeated core must hold, location by location, the assembly the original outage put there."""
+    import os
+
+    from armi.physics.fuelCycle import fuelHandlerInterface, fuelHandlers
+
+    out = Out()
+    spec = _apply_plates(case["spec"], "bottom" if case["stationary"] != "none" else "asis")
+    spec["sfp"] = True
+    flags, stat_kinds = STATIONARY[case["stationary"]]
+    settings = {"trackAssems": True, "stationaryBlockFlags": list(flags), "nCycles": 2}
+    cs, bp, r = rg.build(spec, settings)
+    M = _load_model(spec, stat_kinds, r)
+    n_initial = len(M.A)
+    fresh_designs = []
+    counts = {"swap": 0, "cascade": 0, "dswap": 0}
+
+    class Recorded(fuelHandlers.FuelHandler):
+        def chooseSwaps(self, shuffleFactors=None):
+            for op in case["program"]:
+                cands = M.core_sorted()
+                kind = op["kind"]
+                x = _pick(cands, op["a"])
+                if kind == "dswap":
+                    # the outgoing assembly is one that started the outage in the core: an assembly charged and discharged
+                    # within one outage is a "dummy move" the repeat documents it skips
+                    old = [c for c in cands if c < n_initial]
+                    if not old:
+                        continue
+                    x = _pick(old, op["a"])
+                    designs = [d for d in spec["designs"] if M.design_layout(d) == M.layout(x)]
+                    if not designs or M.layout(x):
+                        continue  # a fresh charge with a stationary exchange is the known finding; layouts must agree
+                    design = _pick(designs, op["design"])
+                    a = r.core.createAssemblyOfType(assemType=design["name"], cs=cs)
+                    aid = M.register(a, design)
+                    fresh_designs.append(design)
+                    self.dischargeSwap(a, M.A[x])
+                    M.put_in(aid, M.take_out(x, to_pool=True))
+                    counts["dswap"] += 1
+                    continue
+                rest = [c for c in cands if c != x and M.layout(c) == M.layout(x)]
+                members = [x]
+                for n in [op["b"]] + (list(op["more"]) if kind == "cascade" else []):
+                    if rest:
+                        y = _pick(rest, n)
+                        rest.remove(y)
+                        members.append(y)
+                if len(members) < 2:
+                    continue
+                for y in members[1:]:
+                    M.swap(x, y)
+                if kind == "swap":
+                    self.swapAssemblies(M.A[members[0]], M.A[members[1]])
+                else:
+                    self.swapCascade([M.A[m] for m in members])
+                counts[kind] += 1
+
+    fname = os.path.abspath(cs.caseTitle + "-SHUFFLES.txt")
+    if os.path.exists(fname):
+        os.remove(fname)
+    try:
+        r.core.locateAllAssemblies()
+        Recorded(_Operator(r, cs)).outage()
+        if not _check(out, M, r, "original outage", set(M.live())):
+            return out
+        fuelHandlerInterface.FuelHandlerInterface(r, cs).makeShuffleReport()
+        with open(fname) as f:
+            record = f.read()
+
+        cs2, bp2, r2 = rg.build(spec, dict(settings, explicitRepeatShuffles=fname))
+        M2 = _load_model(spec, stat_kinds, r2)
+        names = {aid: M.A[aid].getName() for aid in range(len(M.A))}
+        if [M2.A[aid].getName() for aid in range(n_initial)] != [names[aid] for aid in range(n_initial)]:
+            raise AssertionError("harness: the second reactor does not start like the first")
+        r2.core.locateAllAssemblies()
+        fuelHandlers.FuelHandler(_Operator(r2, cs2)).outage()
+    finally:
+        if os.path.exists(fname):
+            os.remove(fname)
+
+    # The expected state of the repeated reactor is the model of the original outage, object for object: assemblies that
+    # started in the core are identified by name (both reactors are built alike); a charged assembly is identified by where
+    # it sits and by its type (the repeat creates its own fresh assemblies, in its own order, so their names are not promised).
+    at2 = {(int(a.spatialLocator.i), int(a.spatialLocator.j)): a for a in r2.core}
+
+    def seen(ij):
+        a = at2.get(ij)
+        return None if a is None else (a.getName() if id(a) in M2.aid else "new " + a.getType())
+
+    want = {ij: (names[aid] if aid < n_initial else "new " + fresh_designs[aid - n_initial]["name"]) for ij, aid in M.at.items()}
+    got = {ij: seen(ij) for ij in at2}
+    if got != want:
+        diff = sorted(ij for ij in set(got) | set(want) if got.get(ij) != want.get(ij))
+        out.fail("replay/repeated-outage-puts-assemblies-elsewhere", "locations %s: original outage %s, repeated %s\nrecord:\n%s" % (
+            diff, [want.get(ij) for ij in diff], [got.get(ij) for ij in diff], record))
+        return out
+    for aid in range(n_initial, len(M.A)):
+        M2.register(at2[M.where[aid]], fresh_designs[aid - n_initial])
+    M2.at, M2.where, M2.pool = dict(M.at), dict(M.where), list(M.pool)
+    M2.stack = {aid: list(bids) for aid, bids in M.stack.items()}
+    _check(out, M2, r2, "repeated outage", set(M2.live()))
+    moved = sum(counts.values())
+    out.label("geom:" + spec["geom"], "sym:" + spec["symmetry"].split()[0], "stationary:" + case["stationary"],
+              *["op:%s" % k for k, v in counts.items() for _ in range(v)])
+    if counts["swap"] + counts["cascade"]:
+        out.label("has-loop")
+    if counts["dswap"]:
+        out.label("has-charge")
+    out.nontrivial = moved >= 2 and counts["swap"] + counts["cascade"] >= 1
+    return out
+
+
 def execute(case):
     return _execute(case, EXCLUDE_KNOWN)
 
@@ -923,6 +1110,12 @@ def known_execute(case):
 
 
 PARTS = [
+    Part("replay", replay_execute, strategy=replay_strategy, budget={"quick": 40, "thorough": 1500}, procs={"quick": 2, "thorough": 8},
+         rule="Hypothesis: hex core (third/full, <= 3 rings) x stationary {none, grid plate at the bottom of every design} x program of <= 6 "
+              "swaps / cascades / discharge swaps (fresh) run inside FuelHandler.outage(); armi's own move record is written with "
+              "makeShuffleReport and an identical fresh reactor repeats it through explicitRepeatShuffles; oracle: the repeated core "
+              "holds at every location the assembly the original outage put there (by name), then the full C14 state oracle on the "
+              "repeated reactor against the model of the original outage; non-trivial = >= 2 operations incl. an in-core loop"),
     Part("programs", execute, strategy=strategy, budget={"quick": 360, "thorough": 12000}, procs={"quick": 6, "thorough": 16},
          rule="Hypothesis: blueprint-built core (hex third/full flats/corners up, Cartesian full/quarter, 2-4 rings, holes, 1-3 designs of "
               "1-3 blocks, grid plates/reflectors at any axial position or forced to the bottom / bottom+top, SFP explicit or default) x "
@@ -930,7 +1123,8 @@ PARTS = [
               "trackAssems on/off x stationaryBlockFlags {none, grid plate, grid plate+reflector} x program of <= 14 operations drawn "
               "from a random subset of {swapAssemblies, swapCascade(2-5 members), dischargeSwap(fresh|pool), Core.add(fresh|pool|purged "
               "put back; locator of the core grid / of an equal grid / detached / none) at a "
-              "free location, removeAssembly(discharge True|False)}, operands modulo the valid targets (centre first), cascade lists "
+              "free location, removeAssembly(discharge True|False), removeAssembliesInRing (hex cores; circularRingMode on with the override, off "
+              "with/without it)}, operands modulo the valid targets (centre first), cascade lists "
               "optionally with None entries, pool optionally pre-populated through the sfp grid contents (also with tracking off); oracle = "
               "location/pool/purged/block-stack model compared after every step (children, locators, childrenByLocator, string "
               "location lookup, name lookups incl. purged, inventory, contents), refusals must raise and leave the model state; "
